@@ -200,6 +200,50 @@ def run(R, only=None):
         steps += [{"explain": q + tail}, {"sql": q + tail}, {"sql": "pragma disable_optimizer"}, {"sql": q + tail}]
         cases.append({"engine": R.rng.choice(["mem", "disk"]), "steps": steps, "a": [big], "b": [], "q": q + tail, "sq": q + stail,
                       "ks": [(0, bool(i % 2))], "tags": {"order", "big"}, "n0": n0})
+    # LIMIT / OFFSET without ORDER BY over tables loaded by several INSERTs (several chunks / row-sets): SQL fixes the NUMBER of rows
+    # and that they are rows of the input; which ones is the engine's choice
+    ucases = []
+    for i in range(40 if R.tier == "quick" else 500):
+        rng = R.rng
+        a_b, b_b = gen_db(rng)
+        while len(a_b) < 2:
+            a_b = a_b + gen_db(rng)[0]
+        na = sum(len(b) for b in a_b)
+        lim, off = rng.choice([None, 0, 1, 2, na, na + 1]), rng.choice([None, 1, 2, 3, len(a_b[0]), len(a_b[0]) + 1, na])
+        if lim is None and off is None:
+            off = len(a_b[0])
+        tail = ("" if lim is None else f" limit {lim}") + ("" if off is None else f" offset {off}")
+        filt = rng.choice(["", "", " where y is not null"])
+        q = f"select x, y, s from a{filt}{tail}"
+        steps = [{"sql": "create table a(x int, y int, s varchar)"}]
+        for batch in a_b:
+            steps.append({"sql": "insert into a values " + ", ".join("(" + ", ".join(lit(v) for v in r) + ")" for r in batch)})
+        steps += [{"sql": q}, {"sql": "pragma disable_optimizer"}, {"sql": q}]
+        pool = [r for b in a_b for r in b if not filt or r[1] is not None]
+        n = max(0, len(pool) - (off or 0))
+        ucases.append({"engine": rng.choice(["mem", "disk"]), "steps": steps, "q": q, "pool": pool, "want": n if lim is None else min(lim, n)})
+    uouts = run_harness("sql", [{"engine": c["engine"], "steps": c["steps"]} for c in ucases], jobs=16)
+    for c, o in zip(ucases, uouts):
+        rep = {"kind": "sql-script", "engine": c["engine"], "case": c["steps"]}
+        if not isinstance(o, list) or len(o) < len(c["steps"]):
+            R.property_fails(None, f"C02 `{c['q']}` aborted: {json.dumps(o)[-150:]}", rep)
+            continue
+        for which, x in (("optimizer on", o[-3]), ("optimizer off", o[-1])):
+            rl = norm_rl(x)
+            if rl is None:
+                R.property_fails(None, f"C02 `{c['q']}` ({c['engine']}, {which}) failed: {json.dumps(x)[:120]}", rep)
+                break
+            pool = [json.dumps(list(r)) for r in c["pool"]]
+            ok = len(rl) == c["want"]
+            for r in map(json.dumps, rl):
+                if r in pool:
+                    pool.remove(r)
+                else:
+                    ok = False
+            if not ok:
+                R.property_fails(None, f"C02 `{c['q']}` ({c['engine']}, {which}) over {len(c['pool'])} qualifying rows loaded by {len(c['steps']) - 4} INSERTs "
+                                       f"returned {len(rl)} rows, SQL prescribes {c['want']} rows of the input", rep)
+                break
     outs = run_harness("sql", [{"engine": c["engine"], "steps": c["steps"]} for c in cases], jobs=16)
     nontriv, kinds, skipped = set(), {}, 0
     for c, o in zip(cases, outs):
